@@ -45,6 +45,15 @@ def compile_layout(case, flavor="tt", writer_objs=None):
     return f2, dbg.getvalue(), data
 
 
+def compile_sequence(case):
+    """[case] + case["then"]: one list of writer instances (built from the first case) serves all of them in turn, as
+    it does for the masters of a family or for a caller that keeps its writers.  Yields (case, font, fea)."""
+    ws = _writers(case)
+    for c in [case] + list(case.get("then") or []):
+        f2, fea, data = compile_layout(c, writer_objs=ws)
+        yield c, f2, fea
+
+
 def kern_record(case, f2, tid):
     order = f2.getGlyphOrder()
     gid = {n: i for i, n in enumerate(order)}
